@@ -283,7 +283,7 @@ func runDeny(t *testing.T) {
 	// of the test is not empty)
 	progs := gen.Program(gen.Conf{AltPat: true, AltPatFree: true, Builtins: true, Paths: true, Update: true, MaxNodes: 30})
 	inputs := inputGen(false)
-	rec.Rapid(t, "deny-env", rec.Scale(8000, 400000), func(t *rapid.T) {
+	rec.Rapid(t, "deny-env", rec.Scale(8000, 300000), func(t *rapid.T) {
 		p := progs.Draw(t, "prog")
 		var srcB, altB strings.Builder
 		n := 0
@@ -672,7 +672,7 @@ func runVars(t *testing.T) {
 	inputs := inputGen(false)
 	plain := rapid.SampledFrom([]any{0, 1, 2, 3, -1, 5, 0.5, 1.5, "a", "b", "", "ab", nil, true, false, []any{}, []any{1, 2}, []any{"a"}, []any{[]any{0}, 1}, map[string]any{}, map[string]any{"a": 1},
 		map[string]any{"a": []any{1}, "b": "x"}, []any{map[string]any{"a": 1}}, "é", 10})
-	rec.Rapid(t, "vars-prog", rec.Scale(10000, 500000), func(t *rapid.T) {
+	rec.Rapid(t, "vars-prog", rec.Scale(10000, 300000), func(t *rapid.T) {
 		k := rapid.IntRange(1, 4).Draw(t, "k")
 		names := make([]string, k)
 		for i := range names {
